@@ -1689,3 +1689,99 @@ Proof.
     eexists. split; [vm_compute; reflexivity|].
     repeat split; try (vm_compute; reflexivity). vm_compute. discriminate.
 Qed.
+
+(* ================================================================== *)
+(* the statements in the form Props/C09.v cites them                     *)
+
+(* both versions of upload: right whenever the children's anchor is the destination *)
+Lemma upload_gen_dir_spec_full fixed cwd fs nm ch dst wi chc :
+  let dst' := final_destination nm dst wi in
+  let A := resolve cwd dst' in
+  resolve cwd (upload_anchor fixed wi dst' nm) = A ->
+  lookup fs cwd = Some (Dir chc) ->
+  wf_tree (Dir ch) ->
+  compat fs A (Dir ch) ->
+  exists fs', upload_gen fixed cwd fs nm (Dir ch) dst wi = Ok fs' /\
+              (forall q, look fs' q = look (graft fs A (Dir ch)) q) /\
+              (forall q, look fs' q = placed fs A (Dir ch) q).
+Proof.
+  intros dst' A EA Hc W C.
+  destruct (upload_gen_dir_spec fixed cwd fs nm ch dst wi chc EA Hc W C) as (fs' & E & V).
+  exists fs'. repeat split; auto. intro q. rewrite V. symmetry. apply graft_placed; assumption.
+Qed.
+
+Lemma upload_anchor_fixed wi dst' nm : upload_anchor true wi dst' nm = dst'.
+Proof. reflexivity. Qed.
+
+Lemma upload_spec_fixed_full cwd fs nm ch dst wi chc :
+  let A := resolve cwd (final_destination nm dst wi) in
+  lookup fs cwd = Some (Dir chc) ->
+  wf_tree (Dir ch) ->
+  compat fs A (Dir ch) ->
+  exists fs', upload_fixed cwd fs nm (Dir ch) dst wi = Ok fs' /\
+              (forall q, look fs' q = look (graft fs A (Dir ch)) q) /\
+              (forall q, look fs' q = placed fs A (Dir ch) q).
+Proof. intros A. apply (upload_gen_dir_spec_full true). reflexivity. Qed.
+
+Lemma upload_dir_spec_partial_full cwd fs nm ch dst wi chc :
+  let dst' := final_destination nm dst wi in
+  let A := resolve cwd dst' in
+  resolve cwd (bug_anchor wi dst' nm) = A ->
+  lookup fs cwd = Some (Dir chc) ->
+  wf_tree (Dir ch) ->
+  compat fs A (Dir ch) ->
+  exists fs', upload cwd fs nm (Dir ch) dst wi = Ok fs' /\
+              (forall q, look fs' q = look (graft fs A (Dir ch)) q) /\
+              (forall q, look fs' q = placed fs A (Dir ch) q).
+Proof. intros dst' A. apply (upload_gen_dir_spec_full false). Qed.
+
+Lemma remove_spec_full cwd t fuel fs p :
+  (tree_size t <= fuel)%nat ->
+  lookup fs (resolve cwd p) = Some t ->
+  resolve cwd p <> [] ->
+  remove fuel cwd fs p = Ok (remove_at fs (resolve cwd p)) /\
+  (forall q, is_prefix (resolve cwd p) q = false -> look (remove_at fs (resolve cwd p)) q = look fs q) /\
+  (wf_tree fs -> forall r, look (remove_at fs (resolve cwd p)) (resolve cwd p ++ r) = None).
+Proof.
+  intros Hf L Ha. split; [apply (remove_exact cwd t); assumption|]. split.
+  - intros q P. apply look_remove_at_other. assumption.
+  - intros W r. eapply look_remove_at_gone; eauto.
+Qed.
+
+Lemma download_spec_full cwd rfs lcwd lfs src dst wi t fuel :
+  let dst' := final_destination (pname src) dst wi in
+  let A := resolve lcwd dst' in
+  (tree_size t <= fuel)%nat ->
+  lookup rfs (resolve cwd src) = Some t ->
+  wf_tree t ->
+  no_file_on lfs (removelast A) ->
+  kinds_ok lfs A t ->
+  (is_dir t = false -> p_parts dst' <> []) ->
+  download fuel cwd rfs lcwd lfs src dst wi = Ok (graft lfs A t) /\
+  (no_file_on lfs A -> forall q, look (graft lfs A t) q = placed lfs A t q).
+Proof.
+  intros dst' A Hf L W NF K HP. split.
+  - apply download_spec; assumption.
+  - intros NFA q. apply graft_placed; [assumption|]. split; assumption.
+Qed.
+
+(* non-vacuity: a fresh destination x/y under cwd /w, a source with an empty directory, an empty file and
+   equal names on two levels; the anchor hypothesis of the as-found code is satisfiable too *)
+Lemma hypotheses_satisfiable :
+  let fs := Dir [([119], Dir [([111], File [1])])] in
+  let src := [(n_a, Dir [(n_a, File []); (n_x, Dir [])]); (n_x, File [7])] in
+  lookup fs [[119]] = Some (Dir [([111], File [1])]) /\
+  wf_tree (Dir src) /\
+  compat fs (resolve [[119]] (final_destination n_foo (mkp false [n_x; n_y]) false)) (Dir src) /\
+  upload_fixed [[119]] fs n_foo (Dir src) (mkp false [n_x; n_y]) false
+  = Ok (graft fs [[119]; n_x; n_y; n_foo] (Dir src)) /\
+  (forall fixed, resolve [[119]] (upload_anchor fixed true (final_destination n_foo (mkp false [n_x]) true) n_foo)
+                 = resolve [[119]] (final_destination n_foo (mkp false [n_x]) true)).
+Proof.
+  cbv zeta. split; [reflexivity|]. split.
+  - simpl. repeat (split || constructor); simpl; intuition discriminate.
+  - split; [|split; [vm_compute; reflexivity|intros [|]; reflexivity]].
+    apply compat_fresh; [|reflexivity].
+    intros q P c. apply is_prefix_true in P as [r P].
+    destruct q as [|q1 [|q2 [|q3 [|q4 [|q5 q]]]]]; simpl in P; inversion P; subst; vm_compute; discriminate.
+Qed.
